@@ -26,12 +26,45 @@ Inductive bop :=
 | BUseB (k : N) (res : bool)
 | BMergeAB (res : list bool).
 
+(* request level: ban / unban of key k acknowledged with a status, a request that must be refused, a use
+   of key k (publish / subscribe / unsubscribe) answered with a status, a restart of the broker *)
+Inductive rop :=
+| RBan (k : N) (banned : bool) (t : Z) (status : N)
+| RRefused (status : N)
+| RUse (k : N) (status : N)
+| RRestart.
+
+(* the property: a valid request is acknowledged (200) and from then on the key is refused (401) exactly
+   while it is banned - across restarts; an invalid request is refused and changes nothing *)
+Fixpoint breq_ok (l : list rop) (banned : list N) : bool :=
+  match l with
+  | [] => true
+  | RBan k b _ st :: r => (st =? 200) && breq_ok r (if b then k :: banned else filter (fun x => negb (x =? k)) banned)
+  | RRefused st :: r => (st =? 401) && breq_ok r banned
+  | RUse k st :: r => (if existsb (N.eqb k) banned then st =? 401 else st =? 0) && breq_ok r banned
+  | RRestart :: r => breq_ok r banned
+  end.
+
+(* the same history through the model of the durable set behind keyban and Authorize (Model/BanStore.v):
+   do the uses get the answers the model gives *)
+Fixpoint breq_model (l : list rop) (s : bstore) : bool :=
+  match l with
+  | [] => true
+  | RBan k b t _ :: r => breq_model r (fst (ban_step s (if b then KBan k t else KUnban k t)))
+  | RRefused _ :: r => breq_model r s
+  | RUse k st :: r => let (s', res) := ban_step s (KUse k) in
+                      (match res with Some b => Bool.eqb b (st =? 401) | None => false end) && breq_model r s'
+  | RRestart :: r => breq_model r (fst (ban_step s KRestart))
+  end.
+
 Inductive case :=
 | CHist (durable : bool) (n : N) (ops : list op) (finals : list (dump * list bool))
 | CBan (ops : list bop)
 (* lookups racing ban / unban toggles: number of answers, read right after an acknowledged toggle,
    that did not show it *)
 | CBanRace (toggles wrong : N)
+(* emitter/keyban/ requests and uses of the keys against a real broker (status 0 = plain success) *)
+| CBanReq (rops : list rop)
 (* payloads (durable?, content) queued with Send on one link of mesh's gossipSender, then what
    deliver() handed to the connection *)
 | CSender (ps : list (bool * dump)) (live : dump) (sent : list dump) (panicked : bool).
@@ -182,6 +215,7 @@ Definition check (c : case) : N :=
     let s := fold_left bstep ops (BSt bs0 bs0 true [] true) in
     bit (bok s) 1 |+| bit (book s) 2
   | CBanRace toggles wrong => bit (wrong =? 0) 2
+  | CBanReq rops => bit (breq_model rops bs0) 1 |+| bit (breq_ok rops []) 2
   | CSender ps live sent panicked =>
     let model := fold_left (fun sl x => slot_send sl (fst x) (list_to_map (snd x))) ps SNone in
     let corr := negb panicked &&
